@@ -318,6 +318,35 @@ def rule_dep(repo):
 
 
 @guarded
+def rule_covord(repo):
+    """C_F = sum_k Phi_k B_k Phi_k^T with Phi_k = A_{F-1} ... A_{k+1} A_k: LATER transitions multiply from the left (the recursion C <- A C A^T + B).
+    propagate_cov obtains all suffix products at once by scanning the time-REVERSED sequence (I, A_{F-1}, A_{F-2}, ...); on a reversed sequence
+    "later on the left" is the RIGHT fold x_1 o x_2 o ... o x_i, i.e. cumprod(..., left=False).  The default left=True yields A_k ... A_{F-1}.
+    Non-commuting 9x9 blocks make the difference first order in dt."""
+    res = RuleResult('C16.COVORD', 'propagate_cov: the suffix products of the transition matrices put later transitions on the left (time-reversed sequence '
+                     'scanned with left=False, or the forward sequence with left=True)', floor=1)
+    f = repo.func(IMU, CLS + '.propagate_cov')
+    n = 0
+    for c in paths.calls_in(f.node):
+        if (dotted(c.func) or '').split('.')[-1] in ('cumprod', 'cumprod_') and c.args:
+            n += 1
+            flipped = any(isinstance(x, ast.Call) and isinstance(x.func, ast.Attribute) and x.func.attr == 'flip' for x in ast.walk(c.args[0]))
+            leftkw = next((k.value for k in c.keywords if k.arg == 'left'), c.args[2] if len(c.args) > 2 else None)
+            left = True if leftkw is None else (leftkw.value if isinstance(leftkw, ast.Constant) else None)
+            ok = left is not None and (flipped != left)
+            res.inst({'function': f.fq, 'scan': src(c)[:60], 'sequence time-reversed': flipped, 'left': left, 'later transitions on the left': ok}, src(c))
+            if left is None:
+                res.unresolved += 1
+            elif not ok:
+                res.add(Finding('C16.COVORD', f, '`%s` scans the %s sequence of transition matrices with left=%s: the products come out as A_k ... A_{F-1} (earlier '
+                                'transitions on the left) instead of A_{F-1} ... A_k, so for two or more frames per call the covariance is not the documented '
+                                'recursion and differs from frame-by-frame propagation' % (src(c)[:60], 'time-reversed' if flipped else 'forward', left), node=c))
+    if n == 0:
+        raise AnalysisError('C16.COVORD: propagate_cov no longer scans the transition matrices with cumprod')
+    return res
+
+
+@guarded
 def rule_grav(repo):
     """Gravity is removed from the measured acceleration the same way whether the rotation is supplied or integrated: a = acc - R^-1 g with R the
     supplied resp. integrated rotation.  The two branches of integrate() are siblings: same sign of the gravity term, same side of the inverse,
@@ -353,7 +382,7 @@ def _rules_core(repo, tier):
     from ..effects import rule_pure
     from ..fresh import rule_fresh
     t = [(IMU, CLS + '.forward'), (IMU, CLS + '.integrate'), (IMU, CLS + '.predict'), (IMU, CLS + '.propagate_cov'), (IMU, CLS + '._check')]
-    return [rule_grav(repo), rule_carry(repo), rule_rank(repo), rule_dir_comp(repo), rule_dep(repo), rule_init(repo), rule_cov(repo),
+    return [rule_grav(repo), rule_covord(repo), rule_carry(repo), rule_rank(repo), rule_dir_comp(repo), rule_dep(repo), rule_init(repo), rule_cov(repo),
             rule_pure(repo, 'C16.PURE', 'the integrator does not write in place into the measurement tensors it is given (dt, gyro, acc, rot, init_state): '
                       'feeding the same stream again, whole or in chunks, starts from the same data', t),
             rule_fresh(repo, 'C16.FRESH', 'nothing the integrator writes in place is loaded from the integrator object (the carried state is rebound, '
@@ -365,10 +394,11 @@ def rules(repo, tier):
     from ..optional import rule_optional
     from ..mode import mode_rules
     from ..callsig import rule_callsig
+    from ..docsig import rule_docsig
     from ..axisdefault import rule_axisdefault
     return list(_rules_core(repo, tier)) + [rule_memo(repo, 'C16.MEMO', 'history independence: nothing computed from the contents of a tensor argument is kept '
                                                       'under the identity, address or version of that tensor, in module-level storage, or published from a generator '
                                                       'before it is complete - a later call with the same object and other contents must not be answered from it',
                                                       ['pypose.module.imu_preintegrator', 'pypose.basics.ops'], floor=3),
-            rule_optional(repo, 'C16.OPT', ['pypose.module.imu_preintegrator', 'pypose.basics.ops'])] + mode_rules(repo, 'C16', ['pypose.module.imu_preintegrator', 'pypose.basics.ops']) + [rule_callsig(repo, 'C16.SIG', ['pypose.module.imu_preintegrator', 'pypose.basics.ops'])] + [
+            rule_optional(repo, 'C16.OPT', ['pypose.module.imu_preintegrator', 'pypose.basics.ops'])] + mode_rules(repo, 'C16', ['pypose.module.imu_preintegrator', 'pypose.basics.ops']) + [rule_callsig(repo, 'C16.SIG', ['pypose.module.imu_preintegrator', 'pypose.basics.ops']), rule_docsig(repo, 'C16.DOC', ['pypose.module.imu_preintegrator', 'pypose.basics.ops'])] + [
             rule_axisdefault(repo, 'C16.AXDEF', ['pypose.module.imu_preintegrator', 'pypose.basics.ops'])]
